@@ -45,7 +45,7 @@ def run_tlc(spec, cfg, scratch, workers=None, dump=False, simulate=None, depth=N
     """
     workers = workers or NCPU
     meta = tempfile.mkdtemp(prefix='meta', dir=scratch)
-    cmd = ['java', '-XX:+UseParallelGC', '-Xmx12g',
+    cmd = ['java', '-XX:+UseParallelGC', '-Xmx12g', '-Xss64m',
            '-DTLA-Library=' + os.pathsep.join([SPEC_DIR, MC_DIR, TRACE_DIR])]
     cmd += list(jvm_props)
     cmd += ['-cp', '/opt/veriftools/tla/tla2tools.jar:/opt/veriftools/tla/CommunityModules-deps.jar',
